@@ -16,7 +16,8 @@ def glueExists (d : DS) (keys : List (Nat × Nat)) : String × String :=
   | .panic => ("panic", "")
   | .ok r =>
     let idxs := allIdx d.cfg.m d.cfg.k keys
-    (boolsAns r, " " ++ call (existsName d) "@" (natsC (d.cfg.k :: idxs)) (boolsReply (existsScript d.cfg.k idxs d.st.bits)))
+    let argv := ((existsMultiTrace d.cfg keys d.st).2).getD []
+    (boolsAns r, " " ++ call (existsName d) "@" (natsC argv) (boolsReply (existsScript d.cfg.k idxs d.st.bits)))
 
 def stepBase (d : DS) (ws : List String) : DS × String :=
   match ws with
@@ -63,11 +64,11 @@ def stepBase (d : DS) (ws : List String) : DS × String :=
   | "add" :: items =>
     match items.mapM parseItem with
     | some keys =>
-      if keys.isEmpty then (d, "ok") else
-      let idxs := allIdx d.cfg.m d.cfg.k keys
-      let r := addScript d.cfg.k idxs d.st
-      ({ d with st := addMulti d.cfg keys d.st, added := keys ++ d.added },
-        "ok " ++ call "bfadd" "@,@:c" (natsC (d.cfg.k :: idxs)) (":" ++ toString r.2))
+      match addMultiTrace d.cfg keys d.st with
+      | (_, none) => (d, "ok")
+      | (s', some argv) =>
+        ({ d with st := s', added := keys ++ d.added },
+          "ok " ++ call "bfadd" "@,@:c" (natsC argv) (":" ++ toString (count s')))
     | none => (d, "bad-op")
   | "exists" :: items =>
     match items.mapM parseItem with
